@@ -15,6 +15,11 @@ def gen_cases(ctx):
     return lines + entries[: (600 if ctx.quick else 8000)]
 
 
+import re
+INT_VALUE = re.compile(r"^([iu](?:8|16|32|64)):(-?[0-9]+|N)$")
+INTLITS = [0]
+
+
 def subst(tokens, lit_tokens):
     out, k = [], 0
     for t in tokens:
@@ -56,6 +61,21 @@ def batch_oracle(ctx, lines, impl):
         if (ti == "LEXFAIL") != (tp == "LEXFAIL"):
             verdicts[i] = "only one of the two forms is lexable by the engine tokenizer"
             continue
+        # the literal of a bound integer is its decimal numeral, of a NULL the word NULL - stated here, not taken
+        # from the implementation's value_to_string (which writes the inline form too)
+        for v, l in zip(vals, lits):
+            m_ = INT_VALUE.match(v)
+            if m_ and m_.group(2) == "N":
+                exp = "NULL"
+            elif m_:
+                exp = m_.group(2)
+            else:
+                continue
+            INTLITS[0] += 1
+            if unhexs(l) != exp and verdicts[i] is None:
+                verdicts[i] = "the literal of the bound value %s is written %r" % (v, unhexs(l))
+        if verdicts[i] is not None:
+            continue
         lt = []
         bad = False
         for l in lits:
@@ -75,6 +95,7 @@ def batch_oracle(ctx, lines, impl):
             verdicts[i] = "inline form is not the parameterised form with literals substituted (engine token streams differ)"
     qcommon.text_level_premise(ctx, lines, impl, "I")
     ctx.cov["oracle_statements_compared"] = checked
+    ctx.cov["oracle_integer_literals_checked_against_the_numeral"] = INTLITS[0]
     return verdicts
 
 
